@@ -181,6 +181,16 @@ def sampling(tier, rng, rep):
                 inp = {"k": k.tolist(), "l": l.tolist(), "model": model, "degrees": degrees}
                 res = rep.attempt("circle_parameters_run", inp, lambda: _arc_clauses(rep, inp, k, l, S.circle_parameters(model=model, degrees=degrees), model, degrees, S.endpoint_coords(model)))
                 rep.case(key=(t, model, degrees), nontrivial=bool(res is True), sample=inp if t == 0 and degrees else None)
+        # bi-infinite geodesics between two ideal points, the model given as the enum member or as its documented string alias
+        t1, t2 = rng.uniform(0, 2 * np.pi, 2)
+        if abs(np.sin((t1 - t2) / 2)) > 0.05 and min(abs(np.sin(t1 / 2)), abs(np.sin(t2 / 2))) > 0.05:
+            ki, li = np.array([np.cos(t1), np.sin(t1)]), np.array([np.cos(t2), np.sin(t2)])
+            G = h.Geodesic(h.IdealPoint(spec.k2proj(ki)), h.IdealPoint(spec.k2proj(li)))
+            for model, marg in (("poincare", "poincare"), ("poincare", h.Model.POINCARE), ("halfspace", "halfspace"), ("halfspace", h.Model.HALFSPACE), ("halfspace", "halfplane")):
+                degrees = bool(t % 2)
+                inpg = {"ideal_angles": [t1, t2], "model": str(marg), "degrees": degrees, "object": "Geodesic"}
+                rep.attempt("circle_parameters_run", inpg, lambda: _arc_clauses(rep, inpg, ki, li, G.circle_parameters(model=marg, degrees=degrees), model, degrees, G.endpoint_coords(marg)))
+                rep.case(key=(t, "geodesic", str(marg)), nontrivial=True)
         if t % 4 == 0:
             # composite segments: the reported parameters of unit j are those of segment j.  Chords crossing the x-axis on
             # either side of the origin: seen from their circle's centre the arc straddles the direction 0 or +-pi, so several
